@@ -311,3 +311,77 @@ func init() {
 		}
 	})
 }
+
+// ------------------------------------------------------------------ C19.R6
+// Index searches scan by key prefix. A prefix selects exactly the entries of one composite key only if it is
+// built by the indexer's key constructor, which terminates the field (tx index: startKey appends the
+// separator; block index: orderedcode.Append encodes a terminated string). A prefix made from the raw
+// composite key also matches every key that merely starts with it ("transfer.amount" ⊂
+// "transfer.amount_burned"): search results then disagree with query matching on the same events.
+func init() {
+	register("C19", "R6", "K3", "index searches scan with prefixes built by the indexer's own key constructor (field-terminated), never from a raw composite key", 6, func(c *Ctx) {
+		w := c.W
+		var built func(v ssa.Value, d int) (bool, string)
+		built = func(v ssa.Value, d int) (bool, string) {
+			if d > 3 {
+				return false, "too deep"
+			}
+			v0 := stripConv(v)
+			if ex, ok := v0.(*ssa.Extract); ok {
+				v0 = ex.Tuple
+			}
+			if call, ok := v0.(*ssa.Call); ok {
+				n := calleeName(call)
+				if strings.HasSuffix(n, "#startKey") || strings.HasSuffix(n, "orderedcode#Append") || strings.HasSuffix(n, "#prefixFromCompositeKey") || strings.HasSuffix(n, "#prefixFromCompositeKeyAndValue") || strings.HasSuffix(n, "#startKeyForCondition") || strings.HasSuffix(n, "#heightKey") || strings.HasSuffix(n, "#eventKey") {
+					return true, n
+				}
+				return false, "built by " + n
+			}
+			if p, ok := v0.(*ssa.Parameter); ok {
+				f := p.Parent()
+				idx := -1
+				for i, q := range f.Params {
+					if q == p {
+						idx = i
+					}
+				}
+				callers := w.callersOf(f)
+				if len(callers) == 0 {
+					return false, "parameter of a function without callers"
+				}
+				for _, cs := range callers {
+					if strings.HasSuffix(w.Fset.Position(cs.Pos()).Filename, "_test.go") {
+						continue
+					}
+					if ok, why := built(cs.Common().Args[idx], d+1); !ok {
+						return false, "caller " + funcKey(cs.Parent()) + ": " + why
+					}
+				}
+				return true, "parameter, built by every caller"
+			}
+			if phi, ok := v0.(*ssa.Phi); ok {
+				for _, e := range phi.Edges {
+					if ok, why := built(e, d+1); !ok {
+						return false, why
+					}
+				}
+				return true, "phi"
+			}
+			return false, "value " + w.expr(v)
+		}
+		n := 0
+		for _, pkg := range []string{"state/txindex/kv", "state/indexer/block/kv"} {
+			for _, f := range w.FuncsInPkg(pkg) {
+				for _, call := range rawCallInstrs(f) {
+					if !strings.HasSuffix(calleeName(call), "tm-db#IteratePrefix") {
+						continue
+					}
+					n++
+					ok, why := built(callArgs(call)[1], 0)
+					c.Check(ok, fmt.Sprintf("%s :: prefix scan #%d uses a constructed key", funcKey(f), n), w.ipos(call), why, "the scan prefix is not built by the indexer's key constructor ("+why+"): it also matches keys that only start with the composite key")
+				}
+			}
+		}
+		c.Check(n >= 6, "index prefix scans found", "-", fmt.Sprintf("%d", n), fmt.Sprintf("only %d prefix scans", n))
+	})
+}
